@@ -177,6 +177,9 @@ pub struct Movie {
     /// emit an emsg box (version) before the first moof / at the end
     pub emsg: Option<u8>,
     pub xforms: Vec<Xform>,
+    /// every moof (and its mdat) uses the 64-bit size header form
+    #[serde(default)]
+    pub large_moof: bool,
 }
 
 #[derive(Clone, Debug, Serialize, PartialEq, Eq)]
@@ -612,7 +615,11 @@ fn make_tree(m: &Movie, pl: &Placement) -> (Vec<Node>, usize) {
                 top.push(emsg_node(v));
             }
         }
-        let (moof, fmdat, _) = frag_nodes(m, fi, pl, &mut first_index);
+        let (mut moof, mut fmdat, _) = frag_nodes(m, fi, pl, &mut first_index);
+        if m.large_moof {
+            moof.large = true;
+            fmdat.large = fi % 2 == 0;
+        }
         if m.frags[fi].mdat_first {
             top.push(fmdat);
             top.push(moof);
